@@ -6,7 +6,8 @@ import (
 	"github.com/emmansun/gmsm/drbg"
 )
 
-// Recorded random histories on real DRBG objects (SM3 / HMAC-SM3 / SM4 instantiations, test level),
+// Recorded random histories on real DRBG objects (SM3 / HMAC-SM3 / SM4 in NIST and GM/T 0105 modes,
+// SHA-256 / HMAC-SHA-256 / AES-128/192/256 in NIST mode; test level),
 // validated by TLC against spec/obj/DrbgObj.tla through spec/trace/Trace_Drbg.tla. All inputs
 // (entropy, nonce, personalisation, additional input) and all replies are logged.
 func init() {
@@ -15,7 +16,9 @@ func init() {
 		gm   bool
 		alg  string
 	}
-	combos := []combo{{"hash", false, "sm3"}, {"hash", true, "sm3"}, {"ctr", false, "sm4"}, {"ctr", true, "sm4"}, {"hmac", false, "sm3"}}
+	combos := []combo{{"hash", false, "sm3"}, {"hash", true, "sm3"}, {"ctr", false, "sm4"}, {"ctr", true, "sm4"}, {"hmac", false, "sm3"},
+		{"hash", false, "sm3"}, {"hash", true, "sm3"}, {"ctr", false, "sm4"}, {"ctr", true, "sm4"}, {"hmac", false, "sm3"},
+		{"hash", false, "sha256"}, {"hmac", false, "sha256"}, {"ctr", false, "aes128"}, {"ctr", false, "aes192"}, {"ctr", false, "aes256"}}
 	RegisterRecorder("drbg", func(r *rand.Rand, log func(map[string]interface{})) {
 		c := combos[r.Intn(len(combos))]
 		log(map[string]interface{}{"op": "new"})
@@ -31,7 +34,7 @@ func init() {
 			e, n, p := rbytes(r, el), rbytes(r, nl), rbytes(r, pl)
 			pass := r.Intn(2)
 			x, err := drbgNew(c.mech, c.gm, c.alg, pass, drbgArg(e, 1), drbgArg(n, 1), drbgArg(p, pass))
-			ev := map[string]interface{}{"op": "inst", "mech": c.mech, "gm": c.gm, "e": hx(e), "n": hx(n), "p": hx(p), "res": errName(err), "max": 0}
+			ev := map[string]interface{}{"op": "inst", "mech": c.mech, "gm": c.gm, "alg": c.alg, "e": hx(e), "n": hx(n), "p": hx(p), "res": errName(err), "max": 0}
 			if err == nil {
 				d = x
 				ev["max"] = d.MaxBytesPerRequest()
